@@ -9,6 +9,6 @@ CHECKS["C04"] = dict(
           "and if yes Store + CommitRule, and when that names a newer block the committer's PruneToHeight(block, its view) (no decision may depend on pruning). Oracle: independent reference implementation of the published rules over the "
           "description; compared after every presentation: vote decision, committed block, lock. Non-trivial = the forest has "
           "a fork and a view gap and at least one refusal or commit; distinct = the forest+order string."),
-    assumptions=["the reference is this harness' reading of the HotStuff, Fast-HotStuff and simplified-HotStuff papers",
+    assumptions=["the reference is this harness' reading of the HotStuff, Fast-HotStuff and simplified-HotStuff papers; where a block that decides the lock is missing from the store (the papers know no missing blocks) the reference refuses the vote, as a replica that cannot update its lock must (finding 48)",
                  "forests where a block's view is not above its parent's and its certified block's view are outside the generated domain (unreachable for certified blocks)"],
 )
